@@ -135,6 +135,12 @@ def canonicalise_repo(repo):
     for node in ast.walk(m.tree):
       if not isinstance(node, ast.Call):
         continue
+      for k in node.keywords:
+        # pandas axis names: axis='columns' is axis=1, axis='index'/'rows' is axis=0
+        if k.arg == 'axis' and isinstance(k.value, ast.Constant) and k.value.value in ('columns', 'index', 'rows'):
+          k.value = ast.copy_location(ast.Constant(value=1 if k.value.value == 'columns' else 0), k.value)
+          k.value._parent = k
+          n += 1
       fn = node.func
       name = fn.attr if isinstance(fn, ast.Attribute) else fn.id if isinstance(fn, ast.Name) else None
       sig = cn.sig_for(name, node) if name and node.keywords else None
